@@ -32,9 +32,24 @@ type c14LoadCase struct {
 	Prov     c14Script      `json:"provider"`
 	States   []c14LoadState `json:"states"` // what the state provider reports before each input event
 	Order    string         `json:"order"`  // prev | auth
+	// Split > 0 (C11/ordering/backfill only): the answer is served by two servers, the first one
+	// with the inputs from position Split on (descendants first), the second one with the rest
+	Split int `json:"split,omitempty"`
 }
 
 func init() {
+	// C11: "every ordering the library returns ... by prev events" - RequestBackfill returns its
+	// events in that order also when it had to ask several servers (same generator, other oracle)
+	vfRapid("C11/ordering/backfill", "non-trivial = both servers contribute at least one returned event and some returned event has a prev event among the returned events. distinct = distinct Case JSON",
+		600, 12000, 8, func(t *rapid.T) c14LoadCase {
+			c := c14GenLoad(t)
+			c.Faults = nil
+			c.Order = "prev"
+			if len(c.Input) >= 2 {
+				c.Split = rapid.IntRange(1, len(c.Input)-1).Draw(t, "split")
+			}
+			return c
+		}, c14CheckLoad)
 	vfRapid("C14/load-and-verify", "at least one input fails a stage (parse, signature, auth chain, auth at state) or is listed twice, and at least one input passes every stage", 900, 16000, 8, c14GenLoad, c14CheckLoad)
 }
 
@@ -143,15 +158,25 @@ func c14ResultClass(r EventLoadResult) string {
 // case's PDUs; state and events come from the scripted providers.
 type c14Backfiller struct {
 	*c14StateProvider
-	pdus []json.RawMessage
-	prov EventProvider
+	pdus  []json.RawMessage
+	prov  EventProvider
+	split int
 }
 
 func (b *c14Backfiller) Backfill(ctx context.Context, origin, server spec.ServerName, roomID string, limit int, fromEventIDs []string) (Transaction, error) {
+	if b.split > 0 {
+		if server == "b.example" {
+			return Transaction{Origin: server, PDUs: b.pdus[b.split:]}, nil
+		}
+		return Transaction{Origin: server, PDUs: b.pdus[:b.split]}, nil
+	}
 	return Transaction{Origin: server, PDUs: b.pdus}, nil
 }
 
 func (b *c14Backfiller) ServersAtEvent(ctx context.Context, roomID, eventID string) []spec.ServerName {
+	if b.split > 0 {
+		return []spec.ServerName{"b.example", "c.example"}
+	}
 	return []spec.ServerName{"b.example"}
 }
 
@@ -296,6 +321,51 @@ func c14CheckLoad(ctx *vfCtx, c c14LoadCase) {
 		results, err = loader.LoadAndVerify(context.Background(), raws, order, vfUserIDForSender)
 	})
 	if panicked {
+		return
+	}
+	if c.Split > 0 && c.Split < len(raws) {
+		// C11/ordering/backfill: two servers, limit = everything, so that the second one is asked too
+		bf := &c14Backfiller{c14StateProvider: &c14StateProvider{room: room, by: sp.by}, pdus: raws, prov: c14LibProvider(room, c.Prov, &asked), split: c.Split}
+		var got []PDU
+		if c14Catch(ctx, "C11/ordering/backfill", lists, false, func() {
+			got, _ = RequestBackfill(context.Background(), "a.example", bf, c14Verifier(), "!room:a.example", RoomVersion(c.Version), []string{"$from"}, len(raws), vfUserIDForSender)
+		}) {
+			return
+		}
+		pos := map[string]int{}
+		for i, p := range got {
+			if p != nil {
+				pos[p.EventID()] = i
+			}
+		}
+		first, second, edge := false, false, false
+		for i, it := range items {
+			if _, ok := pos[it.ID]; ok {
+				if i >= c.Split {
+					first = true
+				} else {
+					second = true
+				}
+			}
+		}
+		for _, p := range got {
+			if p == nil {
+				continue
+			}
+			for _, prev := range p.PrevEventIDs() {
+				if pp, ok := pos[prev]; ok {
+					edge = true
+					if pp > pos[p.EventID()] {
+						ctx.Fail("C11/ordering/backfill/ancestor-after-descendant", "RequestBackfill (two servers) returned %s at position %d before its prev event %s at position %d", p.EventID(), pos[p.EventID()], prev, pp)
+						return
+					}
+				}
+			}
+		}
+		if first && second && edge {
+			ctx.NonTrivial()
+		}
+		ctx.Class(fmt.Sprintf("backfill/returned=%d-of-%d", min(len(got), 9), min(len(raws), 9)))
 		return
 	}
 	c14JudgeLoad(ctx, c, items, expect, namedOnly, occurs, parseFails, dup, results, err)
